@@ -1,7 +1,8 @@
 /-
 C03, part 2: the ranking keys.  A more specific template has the greater static count
 (CurlyRouter's first sort key); among WebService root paths a literal scores above a variable,
-a longer matching root above its own prefix, and `detectWebService` returns a root of greatest score.
+a longer matching root above its own prefix, and `detectWebService` returns, among the roots that
+claim the request (faithful score `Curly.wsScoreE`, fix 19aa57d), one of greatest score.
 -/
 import Restful.Spec.Order
 import Restful.Lemmas.CurlyMatch
@@ -261,22 +262,27 @@ theorem C03_root_longer_beats_prefix (qs a b : List Str) (hpre : b <+: a) (hne :
   omega
 
 namespace Curly
+variable (E : ReEnv)
 
-/-- the service's score for the request, as `detectWebService` computes it -/
+/-- the arithmetic of the service's score for the request (no root expression is looked at) -/
 abbrev svcScore (qs : List Str) (s : Service) : Option Nat := wsScore qs (tokenize s.rootPath)
 
+/-- the service's score for the request, as `detectWebService` computes it -/
+abbrev svcScoreE (qs : List Str) (s : Service) : Score := wsScoreE E qs (tokenize s.rootPath)
+
 theorem detectWebService_inv (qs : List Str) : ∀ (svcs : List Service) (best : Option (Service × Nat)) (s : Service) (sc : Nat),
-    detectWebService qs svcs best = some (s, sc) →
-      ((s ∈ svcs ∧ svcScore qs s = some sc) ∨ best = some (s, sc)) ∧
-      (∀ s' ∈ svcs, ∀ sc', svcScore qs s' = some sc' → sc' ≤ sc) ∧
+    detectWebService E qs svcs best = some (some (s, sc)) →
+      ((s ∈ svcs ∧ svcScoreE E qs s = .yes sc) ∨ best = some (s, sc)) ∧
+      (∀ s' ∈ svcs, ∀ sc', svcScoreE E qs s' = .yes sc' → sc' ≤ sc) ∧
       (∀ b bs, best = some (b, bs) → bs ≤ sc)
   | [], best, s, sc, h => by
-    simp only [detectWebService] at h
+    simp only [detectWebService, Option.some.injEq] at h
     subst h
     simp
   | x :: xs, best, s, sc, h => by
     unfold detectWebService at h
     split at h
+    · simp at h
     · rename_i sc0 hx
       obtain ⟨h1, h2, h3⟩ := detectWebService_inv qs xs _ s sc h
       refine ⟨?_, ?_, by simp⟩
@@ -289,8 +295,8 @@ theorem detectWebService_inv (qs : List Str) : ∀ (svcs : List Service) (best :
         simp only [List.mem_cons] at hs'
         rcases hs' with rfl | hs'
         · have : sc' = sc0 := by
-            have : svcScore qs s' = some sc0 := hx
-            rw [this] at hsc'; exact (Option.some.inj hsc').symm
+            have : svcScoreE E qs s' = .yes sc0 := hx
+            rw [this] at hsc'; exact (Score.yes.inj hsc').symm
           subst this
           exact h3 _ _ rfl
         · exact h2 s' hs' sc' hsc'
@@ -309,8 +315,8 @@ theorem detectWebService_inv (qs : List Str) : ∀ (svcs : List Service) (best :
           simp only [List.mem_cons] at hs'
           rcases hs' with rfl | hs'
           · have : sc' = sc0 := by
-              have : svcScore qs s' = some sc0 := hx
-              rw [this] at hsc'; exact (Option.some.inj hsc').symm
+              have : svcScoreE E qs s' = .yes sc0 := hx
+              rw [this] at hsc'; exact (Score.yes.inj hsc').symm
             subst this
             exact h30
           · exact h2 s' hs' sc' hsc'
@@ -329,8 +335,8 @@ theorem detectWebService_inv (qs : List Str) : ∀ (svcs : List Service) (best :
           simp only [List.mem_cons] at hs'
           rcases hs' with rfl | hs'
           · have : sc' = sc0 := by
-              have : svcScore qs s' = some sc0 := hx
-              rw [this] at hsc'; exact (Option.some.inj hsc').symm
+              have : svcScoreE E qs s' = .yes sc0 := hx
+              rw [this] at hsc'; exact (Score.yes.inj hsc').symm
             subst this
             omega
           · exact h2 s' hs' sc' hsc'
@@ -347,38 +353,64 @@ theorem detectWebService_inv (qs : List Str) : ∀ (svcs : List Service) (best :
       · intro s' hs' sc' hsc'
         simp only [List.mem_cons] at hs'
         rcases hs' with rfl | hs'
-        · have : svcScore qs s' = none := hx
-          rw [this] at hsc'; simp at hsc'
+        · have : svcScoreE E qs s' = .no := hx
+          rw [this] at hsc'; cases hsc'
         · exact h2 s' hs' sc' hsc'
 
-/-- the detected service has the greatest score among all matching services -/
+/-- the detected service claims the request (its faithful score is `true, sc`) and has the greatest
+    score among all services that claim it -/
 theorem detectWebService_max (qs : List Str) (svcs : List Service) (s : Service) (sc : Nat)
-    (h : detectWebService qs svcs none = some (s, sc)) :
-    wsScore qs (tokenize s.rootPath) = some sc ∧
-    ∀ s' ∈ svcs, ∀ sc', wsScore qs (tokenize s'.rootPath) = some sc' → sc' ≤ sc := by
-  obtain ⟨h1, h2, _⟩ := detectWebService_inv qs svcs none s sc h
+    (h : detectWebService E qs svcs none = some (some (s, sc))) :
+    wsScoreE E qs (tokenize s.rootPath) = .yes sc ∧
+    ∀ s' ∈ svcs, ∀ sc', wsScoreE E qs (tokenize s'.rootPath) = .yes sc' → sc' ≤ sc := by
+  obtain ⟨h1, h2, _⟩ := detectWebService_inv E qs svcs none s sc h
   refine ⟨?_, h2⟩
   rcases h1 with ⟨_, hs⟩ | h1
   · exact hs
   · simp at h1
 
-/-- no service is detected exactly when no root matches -/
-theorem detectWebService_none (qs : List Str) : ∀ (svcs : List Service) (best : Option (Service × Nat)),
-    detectWebService qs svcs best = none ↔ best = none ∧ ∀ s ∈ svcs, svcScore qs s = none
+/-- scoring panics exactly when the score of some service does -/
+theorem detectWebService_panic (qs : List Str) : ∀ (svcs : List Service) (best : Option (Service × Nat)),
+    detectWebService E qs svcs best = none ↔ ∃ s ∈ svcs, svcScoreE E qs s = .panic
   | [], best => by simp [detectWebService]
   | x :: xs, best => by
     unfold detectWebService
     split
+    · rename_i hx
+      have : svcScoreE E qs x = .panic := hx
+      simp [this]
     · rename_i sc hx
-      rw [detectWebService_none qs xs]
-      have : svcScore qs x = some sc := hx
+      have : svcScoreE E qs x = .yes sc := hx
+      rw [detectWebService_panic qs xs]
       simp [this]
     · rename_i sc b bs hx
-      have : svcScore qs x = some sc := hx
+      have : svcScoreE E qs x = .yes sc := hx
+      split <;> rw [detectWebService_panic qs xs] <;> simp [this]
+    · rename_i hx
+      have : svcScoreE E qs x = .no := hx
+      rw [detectWebService_panic qs xs]
+      simp [this]
+
+/-- no service is detected exactly when no root claims the request -/
+theorem detectWebService_none (qs : List Str) : ∀ (svcs : List Service) (best : Option (Service × Nat)),
+    detectWebService E qs svcs best = some none ↔ best = none ∧ ∀ s ∈ svcs, svcScoreE E qs s = .no
+  | [], best => by simp [detectWebService]
+  | x :: xs, best => by
+    unfold detectWebService
+    split
+    · rename_i hx
+      have : svcScoreE E qs x = .panic := hx
+      simp [this]
+    · rename_i sc hx
+      rw [detectWebService_none qs xs]
+      have : svcScoreE E qs x = .yes sc := hx
+      simp [this]
+    · rename_i sc b bs hx
+      have : svcScoreE E qs x = .yes sc := hx
       split <;> rw [detectWebService_none qs xs] <;> simp
     · rename_i hx
       rw [detectWebService_none qs xs]
-      have : svcScore qs x = none := hx
+      have : svcScoreE E qs x = .no := hx
       simp [this]
 
 end Curly
